@@ -48,6 +48,15 @@ def run(sc):
             sig = inspect.Signature([inspect.Parameter('p0', inspect.Parameter.POSITIONAL_OR_KEYWORD, annotation=ann)])
             msg = TaskiqMessage(task_id='i', task_name='t', labels={}, args=[dict(val)], kwargs={}); parse_params(sig, {'p0': ann}, msg)
             if type(msg.args[0]) is not ann: fails.append({'key': f"same-repr annotations, {'A then B' if first is A else 'B then A'}", 'failed_clauses': [f"C08: a value annotated with model {ann!r} (fields {list(ann.model_fields)}) arrived as {type(msg.args[0])!r} with fields {list(getattr(type(msg.args[0]), 'model_fields', {}))}: converted by another annotation's adapter"]})
+    # two messages that carry EQUAL raw values for an annotated parameter must not share one parsed object (a mutable model / list would leak between executions)
+    import typing as _t
+    for ann, raw in ((_t.List[int], (1, 2)), (_t.Dict[str, int], None), (_t.Set[int], (3,))):
+        if raw is None: continue
+        n += 1; sig = inspect.Signature([inspect.Parameter('p0', inspect.Parameter.POSITIONAL_OR_KEYWORD, annotation=ann)]); got_ = []
+        for _ in range(2):
+            msg = TaskiqMessage(task_id='i', task_name='t', labels={}, args=[raw], kwargs={}); parse_params(sig, {'p0': ann}, msg); got_.append(msg.args[0])
+        if got_[0] is got_[1] and not isinstance(got_[0], (tuple, frozenset, int, str)):
+            for pid in ('C06', 'C08'): fails.append({'key': f"shared-parsed-object/{ann}", 'failed_clauses': [f"{pid}: two messages with the equal raw value {raw!r} for a parameter annotated {ann} received THE SAME {type(got_[0]).__name__} object: what one execution does to it is seen by the other"]})
     # user validation code that raises RuntimeError (not ValueError) while converting: "not convertible" -> the value is delivered unchanged, positionally or by keyword
     import dataclasses
     @dataclasses.dataclass
@@ -62,7 +71,7 @@ def run(sc):
             msg = TaskiqMessage(task_id='i', task_name='t', labels={}, args=[dict(val)] if how == 'positional' else [], kwargs={'p1': '4'} if how == 'positional' else {'p0': dict(val), 'p1': '4'})
             try: parse_params(sig, {'p0': Strict, 'p1': int}, msg)
             except BaseException as ex:
-                fails.append({'key': f"RuntimeError-in-validator/{how}/{val}", 'failed_clauses': [f"C08: parse_params raised {type(ex).__name__} for a {how} argument whose conversion failed with RuntimeError in user validation code (it must be delivered unchanged)"]}); continue
+                fails.append({'key': f"RuntimeError-in-validator/{how}/{val}", 'failed_clauses': [f"C08: parse_params raised {type(ex).__name__} for a {how} argument whose conversion failed with RuntimeError in user validation code (it must be delivered unchanged)", f"C01: parse_params raised {type(ex).__name__} ({how} argument, RuntimeError in user validation code): run_task calls it outside its try block, so the message is taken but its task function is never invoked"]}); continue
             got = msg.args[0] if how == 'positional' else msg.kwargs['p0']
             want_ = dict(val) if val['v'] < 0 else Strict(2)
             if got != want_ or msg.kwargs.get('p1') != 4: fails.append({'key': f"RuntimeError-in-validator/{how}/{val}", 'failed_clauses': [f"C08: {how} argument {val} annotated with a validating dataclass arrived as {got!r}, p1 as {msg.kwargs.get('p1')!r}"]})
